@@ -53,8 +53,10 @@ extern int mpt_outdata_reply(MPT_STRUCT(outdata) *out, size_t len, const void *h
 			}
 			out->buf._buf->_used -= len;
 			if (ilen) {
-				memcpy(ptr, hdr, ilen);
+				memcpy(ptr, tmp, ilen);
 			}
+			/* complete message, not only the part behind the first segment */
+			msg = *src;
 			len = mpt_message_read(&msg, len - ilen, ptr + ilen);
 		}
 	}
